@@ -21,13 +21,13 @@ Notation stepf := (step vdef score_fn (hpopulate h mk vdef) hk hk (fun a => a) r
 Lemma step_tle c s o : abort_early c = false -> Inv s -> tle (trials s) (trials (fst (stepf c s o))).
 Proof.
   intros Hab HI.
-  assert (Hcv : forall id z, cview (trials s) id = Some z -> In id (end_order s)).
+  assert (Hcf : forall id z, cview (trials s) id = Some z -> finalat s id).
   { intros id z Hc. unfold cview in Hc. destruct (nth_error (trials s) id) as [t|] eqn:Et; [|discriminate].
-    destruct (t_status t) eqn:Es; try discriminate.
-    assert (Hlt : id < length (trials s)) by (apply nth_error_Some; congruence).
-    destruct (I_cover _ HI id Hlt) as [H|[H|H]]; [| |exact H].
-    - pose proof (I_on_run _ HI _ H) as Hr. unfold stat in Hr. rewrite Et in Hr. simpl in Hr. congruence.
-    - destruct (I_rq_wait _ HI _ H) as (st & Hs & [Hw|Hw]); unfold stat in Hs; rewrite Et in Hs; simpl in Hs; congruence. }
+    destruct (t_status t) eqn:Es; try discriminate. exists COMPLETED. split; [unfold stat; rewrite Et; simpl; now rewrite Es|now left]. }
+  assert (Hcv : forall id z, cview (trials s) id = Some z -> ~ In id (onids s) /\ ~ In id (retryq s)).
+  { intros id z Hc. destruct (Hcf id z Hc) as (st & Hs & Hf). split; intros H.
+    - pose proof (I_on_run _ HI _ H) as Hr. rewrite Hs in Hr. inversion Hr; subst. destruct Hf; discriminate.
+    - destruct (I_rq_wait _ HI _ H) as (st' & Hs' & Hw). rewrite Hs in Hs'. inversion Hs'; subst. eapply waiting_not_final; eauto. }
   destruct o as [tu|id f|id es f|]; simpl.
   - (* create *)
     unfold do_create. destruct (alookup tu (ongoing s)); [destruct (trial_view vdef (trials s) t); apply tle_refl|].
@@ -39,8 +39,8 @@ Proof.
       apply nth_error_Some. congruence.
     + simpl. split; [now rewrite length_upd|]. intros id z Hc.
       assert (id <> idr).
-      { intros ->. pose proof (Hcv _ _ Hc) as He. pose proof (rev_cons_inv _ _ _ Erq) as Hrq.
-        destruct (I_part _ HI) as (_ & _ & _ & _ & _ & Hbc). apply (Hbc idr); [|exact He]. rewrite Hrq. apply in_or_app. right. now left. }
+      { intros ->. pose proof (Hcv _ _ Hc) as [_ He]. pose proof (rev_cons_inv _ _ _ Erq) as Hrq.
+        apply He. rewrite Hrq. apply in_or_app. right. now left. }
       unfold cview in *. rewrite nth_upd_other; [exact Hc|congruence].
   - (* update: status and score untouched *)
     unfold do_update. destruct (nth_error (trials s) id) as [t|] eqn:Et; simpl; [|apply tle_refl].
@@ -53,7 +53,7 @@ Proof.
     destruct (nth_error (trials s) id) as [t0|] eqn:Et0; [|apply tle_refl].
     assert (Hgen : forall t', tle (trials s) (upd id (fun _ => t') (trials s))).
     { intros t'. split; [now rewrite length_upd|]. intros j z Hc.
-      assert (j <> id). { intros ->. destruct (on_facts _ _ HI Eex) as (_ & _ & Hne). apply Hne. eapply Hcv; eauto. }
+      assert (j <> id). { intros ->. destruct (Hcv _ _ Hc) as [Hne _]. now apply Hne. }
       unfold cview in *. rewrite nth_upd_other; [exact Hc|congruence]. }
     rewrite Hab.
     repeat match goal with
@@ -64,7 +64,7 @@ Proof.
     end; simpl; apply Hgen.
   - (* reload: what was COMPLETED in memory is identical on disk *)
     split; [rewrite from_disk_length; [lia|apply (I_disk_len _ HI)]|].
-    intros id z Hc. pose proof (Hcv _ _ Hc) as He. pose proof (I_d_fin _ HI _ He) as Hd.
+    intros id z Hc. pose proof (I_d_fin _ HI _ (Hcf _ _ Hc)) as Hd.
     unfold cview in *. destruct (nth_error (trials s) id) as [t|] eqn:Et; [|discriminate]. simpl in Hd.
     rewrite (from_disk_nth _ _ _ _ _ Et (eq_sym Hd)). simpl. exact Hc.
 Qed.
